@@ -10,6 +10,7 @@ use bytes::Bytes;
 use explore::report::{Acc, Report, Tier};
 use explore::{hex, Fnv};
 use h3::qpack::{decode_stateless, encode_stateless, HeaderField};
+use refimpl::frames as rf;
 use refimpl::qpack::{self as rq, Field, QErr, Repr};
 use refimpl::{huffman as rh, qstr};
 use serde_json::{json, Value};
@@ -324,6 +325,66 @@ fn encode_singles() -> Vec<Field> {
     singles
 }
 
+/// Connection level: an undecodable field section - as message head and as trailers, both roles, whole / one byte
+/// per read / every execution with <= 2 delivery deviations - closes the connection with
+/// QPACK_DECOMPRESSION_FAILED (the seam of C02's second part, other signature prefix).
+fn conn_level(args: &Args, total: &mut Acc) {
+    use crate::c02_conn::{execute, judge_p, Case, Mode, Where};
+    const QPACK_DECOMPRESSION_FAILED: u64 = 0x200;
+    let bad: [(&[u8], &'static str); 7] = [
+        (&[0x02, 0x00, 0x80], "dynamic-reference"),
+        (&[0x00, 0x00, 0x80], "dynamic-reference-ric0"),
+        (&[0x00, 0x00, 0x10], "post-base-reference"),
+        (&[0x00, 0x00, 0xff, 0x24], "static-index-out-of-range"),
+        (&[0x00, 0x00, 0x51, 0x05, 0x2f, 0x61], "truncated-string"),
+        (&[0x00, 0x00, 0xff, 0x80], "truncated-integer"),
+        (&[0x00], "truncated-prefix"),
+    ];
+    let mut cases = Vec::new();
+    for server in [true, false] {
+        for (sec, why) in bad {
+            for with_head in [false, true] {
+                for mode in [Mode::Whole, Mode::PerByte, Mode::Explore] {
+                    // with_head: a valid head and a DATA frame first, the bad section as trailers
+                    let mut bytes = Vec::new();
+                    if with_head {
+                        bytes.extend(rf::frame(rf::DATA, b"xy"));
+                    }
+                    bytes.extend(rf::frame(rf::HEADERS, sec));
+                    cases.push(Case { server, place: Where::Request, bytes, fin: true, with_head, mode, accept: vec![QPACK_DECOMPRESSION_FAILED], why });
+                }
+            }
+        }
+    }
+    let seed = args.seed;
+    let accs = explore::par::run(&cases, Acc::new, |_, case, acc| {
+        let caps = explore::dfs::Caps { max_executions: 60_000, ..Default::default() };
+        let mut viol = explore::report::ViolSet::new();
+        let b = if case.mode == Mode::Explore { 2 } else { 0 };
+        let st = explore::dfs::explore(
+            b,
+            &caps,
+            || execute(case, seed),
+            |e, o| {
+                for (sig, msg) in judge_p("C11:conn", case, &o) {
+                    viol.add(sig, msg, (e.cost, case.bytes.len()), &e.choices);
+                }
+            },
+        );
+        acc.evaluations += st.executions;
+        acc.dfs.merge(&st);
+        viol.drain_into(acc, |choices| {
+            json!({"kind":"conn","seam":2,"server":case.server,"place":"request","bytes":hex(&case.bytes),"fin":case.fin,"with_head":case.with_head,
+                "mode": match case.mode { Mode::Whole => "whole", Mode::PerByte => "per-byte", Mode::Explore => "explore" },
+                "accept": case.accept, "why": case.why, "choices": choices, "seed": seed})
+        });
+    });
+    for a in accs {
+        total.merge(a);
+    }
+    total.count("connection_level_cases", cases.len() as u64);
+}
+
 fn structured_decode_inputs(thorough: bool) -> Vec<Vec<u8>> {
     let mut v: Vec<Vec<u8>> = Vec::new();
     let idxs: Vec<u64> = (0..=101).chain([126, 127, 128, 255, 256, 16383, 16384, (1 << 30), (1u64 << 62) - 1]).collect();
@@ -396,6 +457,48 @@ fn structured_decode_inputs(thorough: bool) -> Vec<Vec<u8>> {
             }
         }
     }
+    // integers of 2^64 and above whose low bits are exactly the prefix maximum (a decoder that lets the top
+    // group wrap reads 2^N - 1): nine to eleven continuation bytes, last group with bit 0 clear, in every integer
+    // position, followed by exactly what the wrapped value would require
+    for k in 8..=10usize {
+        for term in [0x02u8, 0x04, 0x40, 0x7e] {
+            let cont = |first: u8| {
+                let mut c = vec![first];
+                c.extend(std::iter::repeat(0x80u8).take(k));
+                c.push(term);
+                c
+            };
+            let mut cases: Vec<Vec<u8>> = Vec::new();
+            // indexed static, wrapped index 63
+            cases.push(cont(0xff));
+            let mut t = cont(0xff);
+            t.push(0xd1);
+            cases.push(t);
+            // literal with static name reference, wrapped index 15, value "v"
+            let mut t = cont(0x5f);
+            t.extend([0x01, b'v']);
+            cases.push(t);
+            // literal with literal name, wrapped name length 7
+            let mut t = cont(0x27);
+            t.extend(*b"nnnnnnn");
+            t.extend([0x01, b'v']);
+            cases.push(t);
+            // value length, wrapped 127 (plain) after a static name reference and after a literal name
+            let mut t = vec![0x51];
+            t.extend(cont(0x7f));
+            t.extend(std::iter::repeat(b'v').take(127));
+            cases.push(t);
+            let mut t = vec![0x21, b'n'];
+            t.extend(cont(0x7f));
+            t.extend(std::iter::repeat(b'v').take(127));
+            cases.push(t);
+            for c in cases {
+                let mut sct = vec![0x00, 0x00];
+                sct.extend(c);
+                v.push(sct);
+            }
+        }
+    }
     // prefix integers: over-long and large
     for k in 0..=11usize {
         let mut s = vec![0xff];
@@ -423,7 +526,7 @@ pub fn run(args: &Args) -> i32 {
     let mut rep = Report::new("C11", args.tier, args.seed, "exploration");
     rep.exhaustive = true;
     rep.rule = format!(
-        "encode: every single field over (every distinct static-table name, 'x', '', a 130-byte name, 'X-Upper', ':unknown'; plus 7 near-miss variants of every static name: one letter in the other case, upper case, one byte more / less, and static values in the other case) x (the static values of that name, '', 'v', near-miss values, fillers of length 2/126..129/254..256/300, every single byte value for 4 names, every byte value inside a literal name), all ordered pairs over a reduced set{}; decode: ALL byte strings of <= {} bytes after the prefix 00 00 and of <= {} bytes after the prefixes 00 7f 00 / 01 00 / 00 80 / 00 81; plus the structured set: every representation x index in 0..101 and at every integer boundary x N bit x H bit x value lengths around the 7-bit prefix x 5 section prefixes x every truncation x a following field line, over-long integer continuations in every integer position. Oracle refimpl::qpack. Non-trivial = sections longer than the 2-byte prefix.",
+        "encode: every single field over (every distinct static-table name, 'x', '', a 130-byte name, 'X-Upper', ':unknown'; plus 7 near-miss variants of every static name: one letter in the other case, upper case, one byte more / less, and static values in the other case) x (the static values of that name, '', 'v', near-miss values, fillers of length 2/126..129/254..256/300, every single byte value for 4 names, every byte value inside a literal name), all ordered pairs over a reduced set{}; decode: ALL byte strings of <= {} bytes after the prefix 00 00 and of <= {} bytes after the prefixes 00 7f 00 / 01 00 / 00 80 / 00 81; plus the structured set: every representation x index in 0..101 and at every integer boundary x N bit x H bit x value lengths around the 7-bit prefix x 5 section prefixes x every truncation x a following field line, over-long integer continuations in every integer position, integers >= 2^64 with small low bits in every integer position. Connection level: 7 undecodable sections as message head and as trailers, both roles, whole / per byte / <= 2 delivery deviations, must close the connection with QPACK_DECOMPRESSION_FAILED. Oracle refimpl::qpack. Non-trivial = sections longer than the 2-byte prefix.",
         if thorough { ", all triples over a smaller set" } else { "" },
         if thorough { 4 } else { 3 },
         if thorough { 3 } else { 2 },
@@ -545,6 +648,7 @@ pub fn run(args: &Args) -> i32 {
     for a in accs {
         total.merge(a);
     }
+    conn_level(args, &mut total);
     total.sample(|| json!({"decode":"0100d1","meaning":"Required Insert Count 1, then indexed static 17","reference":"reject: a stateless decoder has no dynamic table"}));
     total.sample(|| json!({"decode":"0000510b2f696e6465782e68746d6c","reference":":path=/index.html (RFC 9204 B.1)"}));
     total.sample(|| json!({"encode":[[":method","GET"],["x",""]],"reference":"decodes back to the same list, in order"}));
@@ -565,6 +669,7 @@ pub fn replay(r: &Value) -> i32 {
             println!("h3 encodes to: {:?}", h3_encode(&fields).map(|r| r.map(|(b, s)| (hex(&b), s))));
             check_encode(&fields, &mut acc);
         }
+        Some("conn") => return crate::c02_conn::replay_p("C11:conn", r),
         _ => return 2,
     }
     for (sig, v) in &acc.violations {
